@@ -295,6 +295,10 @@ def run_check(pid, tier, seed, mod):
             # a job that kills its worker process even when run alone: report it, it is never silently skipped
             ctx.stats['worker_crashes'] = [list(c) for c in _impl.CRASHED[:5]]
             ctx.broken.append({'obligation': 'harness', 'detail': 'a job kills its worker process when run alone: %s %s' % _impl.CRASHED[0]})
+        if _impl.RAISED:
+            # a job of the harness raised instead of answering: the check is not sound on that item, so this is reported as a broken obligation
+            ctx.stats['harness_exceptions'] = [list(c) for c in _impl.RAISED[:5]]
+            ctx.broken.append({'obligation': 'harness', 'detail': 'a job raised %s in %s on %s' % (_impl.RAISED[0][1], _impl.RAISED[0][0], _impl.RAISED[0][2])})
         if (ctx.broken or ctx.disagreements) and not unknown_failures(ctx, mod, known):
             # something no longer checks: look harder for a concrete failing input
             ctx.notes.append('extended search after broken obligation/correspondence')
